@@ -3,6 +3,7 @@ import FastorModel.Proofs.InverseTri
 import FastorModel.Proofs.InversePiv
 import FastorModel.Proofs.InverseSse
 import FastorModel.Proofs.InverseLU
+import FastorModel.Proofs.InverseLUBridge
 import Mathlib.LinearAlgebra.Matrix.Determinant.Basic
 /-!
 # C10 — `inverse(A)` times `A` is the identity, for every size and every computation type
@@ -193,6 +194,20 @@ example : toMat 2 2 (unitLowerPart ({ get := fun i j => if i = 1 ∧ j = 0 then 
         { get := id }) := by
   ext i j
   fin_cases i <;> fin_cases j <;> simp [Matrix.mul_apply, Fin.sum_univ_succ, unitLowerPart, triu, applyPivot] <;> norm_num
+
+/-- **inverse_lu_strategies_correct** — the four LU based strategies end to end, `hLU` discharged by the C11 export
+    `Fastor.LU.lu_post_exec`: for EVERY strategy `s ∈ {BlockLU, SimpleLU, BlockLUPiv, SimpleLUPiv}`, every size `n` and every
+    `A` on which the strategy's factorisation kernel is defined (`LUDefined`: non-zero pivots as met by `_lufact<T,1..8>`, the
+    Doolittle loops, the recursive and the blocked dispatchers, on the row-pre-pivoted matrix for the pivoted forms) and whose `U`
+    has no zero on the diagonal (the divisors of `backward_subs`; the same side condition as C12's solve theorems),
+    `X = get_lu_inverse(L, U, p)` with `(L,U,p) = lu<LUCompType::s>(A)` satisfies `X·A = 1 ∧ A·X = 1`. -/
+theorem inverse_lu_strategies_correct (gt : K → K → Bool) (s : Fastor.LU.Strategy) (n : Nat) (A : Mat K)
+    (hdef : Fastor.LU.LUDefined (Fastor.LU.execOps : Fastor.LU.InvOps K) gt s n (toLU n A))
+    (hd : ∀ i, i < n → Fastor.LU.Mat.get (Fastor.LU.luPublicV Fastor.LU.execOps gt s n (toLU n A)).U i i ≠ 0) :
+    let r := Fastor.LU.luPublicV (Fastor.LU.execOps : Fastor.LU.InvOps K) gt s n (toLU n A)
+    let X := getLuInverse n (ofLU r.L) (ofLU r.U) (ofPerm r.perm)
+    toMat n n X * toMat n n A = 1 ∧ toMat n n A * toMat n n X = 1 :=
+  getLuInverse_of_LUPost n A _ _ _ (Fastor.LU.lu_post_exec gt s n (toLU n A) hdef) hd
 
 /-- **det_closed_form** — the determinant expression the closed forms divide by (`det` of `_inverse<T,n>`, the same
     cofactor expansions `_det<T,n,n>` of backend/determinant.h uses) is the Leibniz determinant, `n ≤ 4` -/
